@@ -1,0 +1,36 @@
+//go:build verif
+// +build verif
+
+// Exported wrappers used only by the verification harness (build tag "verif").
+// Add-only: nothing here is compiled without the tag.
+
+package hotrestart
+
+import (
+	"net"
+	"syscall"
+)
+
+// VerifSendMessage builds a message the way newMessage does and sends it with sendMessage.
+func VerifSendMessage(conn *net.UnixConn, typ uint8, data []byte) error {
+	return sendMessage(conn, &message{Type: messageType(typ), Len: uint16(len(data)), Data: data})
+}
+
+// VerifReadMessage is readMessage.
+func VerifReadMessage(conn *net.UnixConn) (typ uint8, data []byte, err error) {
+	m, err := readMessage(conn)
+	if err != nil {
+		return 0, nil, err
+	}
+	return uint8(m.Type), m.Data, nil
+}
+
+// VerifSockName is genDomainSocketName.
+func VerifSockName(id int) string { return genDomainSocketName(id) }
+
+// VerifSetKill replaces the function the terminate handler calls and returns a restore func.
+func VerifSetKill(f func(pid int, sig syscall.Signal) error) func() {
+	old := kill
+	kill = f
+	return func() { kill = old }
+}
